@@ -19,7 +19,7 @@ Q, T = "quick", "thorough"
 P = {
     "C01": dict(family="C01", mc={Q: ("CfgsRS", dict(MaxCodes=2, MaxAT=4, MaxRT=3, MaxNow=2, Depth=7)),
                                   T: ("CfgsRS", dict(MaxCodes=2, MaxAT=6, MaxRT=4, MaxNow=3, Depth=10))},
-                genx={Q: ("CfgsOne", 4), T: ("CfgsStrategies", 5)},
+                genx={Q: ("CfgsRS", 4), T: ("CfgsStrategies", 5)},
                 sim={Q: ("CfgsStrategies", 400, 14), T: ("CfgsStrategies", 6000, 24)},
                 simb=dict(MaxCodes=3, MaxAT=14, MaxRT=10, MaxNow=4),
                 more=[dict(family="C01b", mc={Q: ("CfgsExpiry", dict(MaxCodes=1, MaxAT=4, MaxRT=3, MaxNow=3, Depth=8)),
